@@ -108,7 +108,67 @@ def check_table(table, ref, where):
     return None
 
 
+def run_two_tables(case):
+    """edits of one table never show up in another: data formats and styles given to cells of the first table and of a table added to the
+    same sheet (or to a new sheet), across two saves of the same open document - each table allocates keys in lists of its own"""
+    import warnings
+    from numbers_parser import Document, RGB
+    warnings.simplefilter("ignore")
+    doc = Document(num_rows=4, num_cols=4)
+    t1 = doc.sheets[0].tables[0]
+    t2 = doc.sheets[0].add_table("Second", num_rows=4, num_cols=4) if case["where"] == "same-sheet" else (doc.add_sheet("S2", "Second", num_rows=4, num_cols=4) or doc.sheets[1].tables[0])
+    want = {}
+
+    def put(t, name, r, c, v, kind, shown, **kw):
+        t.write(r, c, v)
+        t.set_cell_formatting(r, c, kind, **kw)
+        want[(name, r, c)] = shown
+    put(t1, "first", 0, 0, 1234.5678, "number", "1,234.6", decimal_places=1, show_thousands_separator=True)
+    put(t2, "second", 0, 0, 0.256, "percentage", "26%", decimal_places=0)
+    if case.get("styles"):
+        t1.set_cell_style(2, 2, doc.add_style(bg_color=RGB(1, 2, 3), text_wrap=True))
+        t2.set_cell_style(2, 2, doc.add_style(bg_color=RGB(200, 100, 50), bold=True))
+
+    def check(d, where):
+        tabs = {"first": d.sheets[0].tables[0], "second": d.sheets[0].tables[1] if case["where"] == "same-sheet" else d.sheets[1].tables[0]}
+        for (name, r, c), shown in want.items():
+            got = tabs[name].cell(r, c).formatted_value
+            if got != shown:
+                return f"formats of two tables ({case['where']}): {where}: cell ({r},{c}) of the {name} table shows {got!r}, it was formatted to show {shown!r}"
+        if case.get("styles"):
+            try:
+                a, b = tabs["first"].cell(2, 2).style.bg_color, tabs["second"].cell(2, 2).style.bg_color
+            except Exception as e:  # noqa: BLE001
+                return f"styles of two tables ({case['where']}): {where}: reading a cell's style raised {type(e).__name__}: {e}"
+            if (tuple(a), tuple(b)) != ((1, 2, 3), (200, 100, 50)):
+                return f"styles of two tables ({case['where']}): {where}: background colours read {tuple(a)} / {tuple(b)}, given (1, 2, 3) / (200, 100, 50)"
+        return None
+    with tempfile.TemporaryDirectory() as td:
+        p1 = os.path.join(td, "one.numbers")
+        doc.save(p1)
+        err = check(Document(p1), "first save, reopened")
+        if err:
+            return {"detail": err}
+        put(t1, "first", 1, 1, 9.5, "currency", "\u20ac9.50", currency_code="EUR")
+        put(t2, "second", 1, 1, 77.0, "scientific", "7.70E+01", decimal_places=2)
+        if case.get("styles"):
+            t1.set_cell_style(3, 3, doc.add_style(italic=True, text_inset=7.0))
+            t2.set_cell_style(3, 3, doc.add_style(underline=True, text_inset=9.0))
+        err = check(doc, "open document after more formats")
+        if err:
+            return {"detail": err}
+        for n in (2, 3):
+            p = os.path.join(td, f"save{n}.numbers")
+            doc.save(p)
+            err = check(Document(p), f"save number {n} of the same open document, reopened")
+            if err:
+                return {"detail": err}
+    return None
+
+
 def run_case(case):
+    if case.get("special") == "two-tables":
+        return run_two_tables(case)
     from numbers_parser import Document
     nr, nc = case["shape"]
     doc = Document(num_rows=nr, num_cols=nc)
@@ -235,6 +295,9 @@ def main():
                 [("add_row", 510, None, 2.5), ("delete_row", 1, 0), ("write", 511, 2, "last"), ("save",)],
                 [("add_column", 254, None, 1), ("write", 2, 256, "wide"), ("save",)]):
         cases.append({"shape": [3, 3], "ops": [list(o) for o in ops]})
+    for where in ("same-sheet", "other-sheet"):
+        for styles in (False, True):
+            cases.append({"special": "two-tables", "where": where, "styles": styles, "shape": [4, 4], "ops": [["format"], ["save"], ["format"], ["save"]]})
     rnd = random.Random(a.seed)
     for _ in range(a.random):
         ops = ops_alphabet(3, 3)
